@@ -108,7 +108,9 @@ class Argv:
                 "tag_msg": tag_msg, "names": names, "pers": "git" if (self.real or rng.random() < 0.6) else "hg",
                 "push": rng.random() < 0.5, "ops": [{"op": "update"}],
                 # a migrated project that kept its old table: lower-priority tables are ignored as a whole
-                "decoy_table": (not ini) and rng.random() < 0.3}
+                "decoy_table": (not ini) and rng.random() < 0.3,
+                # a config file written on Windows, with the message as a multi-line string
+                "cfg_crlf": (not ini) and rng.random() < 0.25, "multiline": (not ini) and rng.random() < 0.5}
 
     def shrink(self, case):
         """Fewer odd names, plainer messages."""
@@ -134,12 +136,16 @@ class Argv:
             cfg["tag_message"] = tag_msg
         elif case["tag_source"] == "cli":
             argv += ["--tag-message", tag_msg]
-        lines, _i, _p, _s = configsyn.render_config(cfg, case["syntax"], {"quote": '"', "toml_literal": False})
+        lines, _i, _p, _s = configsyn.render_config(cfg, case["syntax"], {"quote": '"', "toml_literal": False,
+                                                                           "toml_multiline": bool(case.get("multiline"))})
         if case.get("decoy_table") and case["syntax"].endswith(".toml"):
             lines += ["", "[pycalver]", 'current_version = "v0.0.1"', 'version_pattern = "vMAJOR.MINOR.PATCH[-TAG]"',
                       'commit_message = "decoy commit {new_version}"', 'tag_message = "decoy tag {new_version}"', "",
                       "[pycalver.file_patterns]", '"decoy.txt" = ["{version}"]', ""]
-        files = {case["syntax"]: ("\n".join(lines) + "\n").encode("utf-8")}
+        text = "\n".join(lines) + "\n"
+        if case.get("cfg_crlf") and case["syntax"].endswith(".toml"):
+            text = text.replace("\n", "\r\n")
+        files = {case["syntax"]: text.encode("utf-8")}
         for n in names:
             files[n] = ("text\nver %s\n" % OLD_V).encode("utf-8")
         invoker.write_tree(d, files)
@@ -185,6 +191,11 @@ class Argv:
                                              "$HOME": "dollar", "`id`": "backtick"}[s])
         if len(case["names"]) > 1:
             ctx.probe("odd_file_name")
+        if case.get("cfg_crlf"):
+            ctx.probe("config_file_with_crlf")
+            if case.get("multiline") and "config" in (case["msg_source"], case["tag_source"]) and \
+                    any("\n" in m for m in (case["commit_msg"], case["tag_msg"])):
+                ctx.probe("crlf_config_multiline_message")
         if ctrl.exit_code != 0:
             # the plain control world is ordinary use; if even that fails there is nothing to compare against
             ctx.count("control_run_failed")
